@@ -2053,6 +2053,10 @@ def compile_require(compiler, expr, root, entries):
         readers = readers and readers[0]
 
         prefix, assignments = assignment_shape(module, rest)
+        if prefix and assignments == "EXPORTS":
+            # `(require foo)` and `(require foo :as bar)` bring in every
+            # macro of `foo`. `_hy_export_macros` only governs `*`.
+            assignments = "ALL"
         module_name = module_name_str(module)
         if isinstance(module, Expression) and module[1][0] == Symbol("None"):
             # Prepend leading dots to `module_name`.
@@ -2104,8 +2108,8 @@ def compile_require(compiler, expr, root, entries):
                         String(compiler.module.__name__),
                         Keyword("assignments"),
                         (
-                            String("EXPORTS")
-                            if assignments == "EXPORTS"
+                            String(assignments)
+                            if isinstance(assignments, str)
                             else List([List([String(k), String(v)]) for k, v in assignments])
                         ),
                         Keyword("prefix"),
